@@ -113,6 +113,7 @@ func c01Run(tier string, seed int64, idx int) *core.Result {
 		tok               []byte // binary request metadata (every third call)
 		seenTok           []string
 		conn              int
+		second            bool // calls the service's second unary method
 	}
 	recs := make([]*rec, c.Callers+c.LateN)
 	byTag := map[string]*rec{}
@@ -127,6 +128,7 @@ func c01Run(tier string, seed int64, idx int) *core.Result {
 		rc.ctx = svc.NewManualCtx(context.Background())
 		rc.late = i >= c.Callers
 		rc.conn = i
+		rc.second = i%4 == 2
 		if i%3 == 1 {
 			rc.tok = payload(r, 1+i%9) // lengths that need base64 padding, arbitrary bytes
 			rc.tok[0] = 0xfb
@@ -175,7 +177,20 @@ func c01Run(tier string, seed int64, idx int) *core.Result {
 			if rc.tok != nil {
 				cctx = metadata.AppendToOutgoingContext(cctx, "trace-bin", string(rc.tok))
 			}
-			got, err := svc.Invoke(cctx, b.Conns[rc.conn%len(b.Conns)], rc.tag, rc.req)
+			inv := svc.Invoke
+			if rc.second {
+				inv = svc.Invoke2 // the service's other unary method
+			}
+			got, err := inv(cctx, b.Conns[rc.conn%len(b.Conns)], rc.tag, rc.req)
+			if err == nil && rc.second {
+				if bytes.HasPrefix(got, []byte("U2:")) {
+					got = got[3:]
+				} else {
+					err = fmt.Errorf("a call of Unary2 was answered by another method's handler (reply lacks the U2: mark)")
+				}
+			} else if err == nil && bytes.HasPrefix(got, []byte("U2:")) && !bytes.HasPrefix(rc.want, []byte("U2:")) {
+				err = fmt.Errorf("a call of Unary was answered by Unary2's handler")
+			}
 			mu.Lock()
 			rc.got, rc.err, rc.done = got, err, true
 			mu.Unlock()
@@ -385,7 +400,7 @@ func init() {
 	core.Register(&core.Prop{
 		ID:             "C01",
 		Level:          "exploration",
-		Rule:           "cases = (topology direct|proxy|fanin+demux) x callers {1,2,3,8,16,64} released together on ONE connection x link capacity {0,8} x {serialising, by-reference} x GOMAXPROCS {1,4,16} x handler-gating {0,50,100}% with a releaser letting parked handlers go in PRNG order; payload sizes from {0,1,17,1Ki,4Ki,64Ki} random bytes both ways; every third call carries binary request metadata (1..9 arbitrary bytes under a -bin key) that the handler must see unchanged; every 8th direct and every 8th fan-in case spreads its callers over 2..3 client connections served by the one Server object at the same time; every 8th case (direct) first abandons a streaming call on the same connection (handler sent 3..6 messages, caller cancelled without receiving); every 8th direct case with >=16 callers additionally cancels 1..3 callers while they are blocked behind the fully gated server and starts 1..4 late callers before releasing the handlers. Plus (quick 8, thorough 64) cases over the shipped websocket transport on loopback sockets whose writes stall half-way: {2,8,16,64} concurrent callers, payloads 0..64 KiB around the 4 KiB frame chunk, the first 4 handlers held until 4 requests have arrived; wall-clock bound 30 s = inconclusive, only wrong requests/replies are violations. Plus (quick 12, thorough 96) reply-then-connection-end cases: {1,2,4,8} callers are held inside their transport write until their replies have been read and dispatched by the client and the connection has then ended (EOF or read failure); each must still get its reply. A case is non-trivial when, measured on the wire tap, at least one reply overtook an older unanswered request; distinct = distinct case parameter tuples.",
+		Rule:           "cases = (topology direct|proxy|fanin+demux) x callers {1,2,3,8,16,64} released together on ONE connection x link capacity {0,8} x {serialising, by-reference} x GOMAXPROCS {1,4,16} x handler-gating {0,50,100}% with a releaser letting parked handlers go in PRNG order; payload sizes from {0,1,17,1Ki,4Ki,64Ki} random bytes both ways; every fourth call goes to the service's second unary method (its handler marks the reply); every third call carries binary request metadata (1..9 arbitrary bytes under a -bin key) that the handler must see unchanged; every 8th direct and every 8th fan-in case spreads its callers over 2..3 client connections served by the one Server object at the same time; every 8th case (direct) first abandons a streaming call on the same connection (handler sent 3..6 messages, caller cancelled without receiving); every 8th direct case with >=16 callers additionally cancels 1..3 callers while they are blocked behind the fully gated server and starts 1..4 late callers before releasing the handlers. Plus (quick 8, thorough 64) cases over the shipped websocket transport on loopback sockets whose writes stall half-way: {2,8,16,64} concurrent callers, payloads 0..64 KiB around the 4 KiB frame chunk, the first 4 handlers held until 4 requests have arrived; wall-clock bound 30 s = inconclusive, only wrong requests/replies are violations. Plus (quick 12, thorough 96) reply-then-connection-end cases: {1,2,4,8} callers are held inside their transport write until their replies have been read and dispatched by the client and the connection has then ended (EOF or read failure); each must still get its reply. A case is non-trivial when, measured on the wire tap, at least one reply overtook an older unanswered request; distinct = distinct case parameter tuples.",
 		Plan:           func(tier string, seed int64) int { return tierN(tier, 96, 3000) + c01WS(tier) + tierN(tier, 12, 96) },
 		ThoroughRounds: 3,
 		Run:            c01Run,
